@@ -1039,6 +1039,9 @@ class Exec:
         m = re.match(r'^core::num::<impl (\w+)>::(\w+)$', base)
         if m:
             return self.intrinsic(m.group(1), m.group(2), argv, pc, obligations)
+        m = re.match(r'^<(\w+) as Ord>::(min|max)$', base)
+        if m and m.group(1) in INT:
+            return self.intrinsic(m.group(1), m.group(2), argv, pc, obligations)
         m = re.match(r'^<(\w+) as From<(\w+)>>::from$', base)
         if m and m.group(1) in INT:
             return self.cast(argv[0], m.group(1))
@@ -1149,6 +1152,29 @@ class Exec:
             if c is None or c <= 0:
                 raise Refuse('ilog2 of a non-constant')
             return self.const(c.bit_length() - 1, 'u32')
+        if fn == 'signum' and sg:
+            return Val(z3.If(a > 0, self.const(1, ty).t, z3.If(a < 0, self.const(-1, ty).t, self.const(0, ty).t)), ty)
+        if fn in ('is_negative', 'is_positive') and sg:
+            return Val(a < 0 if fn == 'is_negative' else a > 0, 'bool')
+        if fn == 'wrapping_neg':
+            return Val(-a if bvm else self.wrap(-a, ty), ty)
+        if fn in ('min', 'max'):
+            b = argv[1].t
+            le = (a <= b) if (sg or not bvm) else z3.ULE(a, b)
+            return Val(z3.If(le, a, b) if fn == 'min' else z3.If(le, b, a), ty)
+        if fn in ('checked_add', 'checked_sub', 'checked_mul'):
+            b = argv[1].t
+            op = {'checked_add': 'Add', 'checked_sub': 'Sub', 'checked_mul': 'Mul'}[fn]
+            lo, hi = (-(1 << (w - 1)), (1 << (w - 1)) - 1) if sg else (0, (1 << w) - 1)
+            if bvm:
+                x = z3.SignExt(w, a) if sg else z3.ZeroExt(w, a); y = z3.SignExt(w, b) if sg else z3.ZeroExt(w, b)
+                wide = {'Add': x + y, 'Sub': x - y, 'Mul': x * y}[op]
+                ok = z3.And(wide >= z3.BitVecVal(lo, 2 * w), wide <= z3.BitVecVal(hi, 2 * w)) if sg else z3.ULE(wide, z3.BitVecVal(hi, 2 * w)) if op != 'Sub' else z3.UGE(a, b)
+                r = z3.Extract(w - 1, 0, wide)
+            else:
+                wide = {'Add': a + b, 'Sub': a - b, 'Mul': a * b}[op]
+                ok = z3.And(wide >= lo, wide <= hi); r = wide
+            return Enum(z3.If(ok, self.const(1, 'isize').t, self.const(0, 'isize').t), {1: [Val(r, ty)], 0: []})
         if fn == 'reverse_bits' and bvm:
             return Val(z3.Concat(*[z3.Extract(i, i, a) for i in range(w)]), ty)
         raise Refuse(f'intrinsic {ty}::{fn}')
